@@ -36,9 +36,9 @@ def _conds(tier):
             for rm in ("start", "steps", "bounded"):
                 for kinds, parents in (("01", "-1,0"), ("00", "-1,-1"), ("02", "-1,0"), ("10", "-1,-1")):
                     c(st, rm, kinds, parents, priosym=1, timeout=2400)
-                    for lv in (0, 1, 10):
-                        c(st, rm, kinds, parents, timeout=2400, loglevel=lv)
-                for kinds, parents in (("001", "-1,-1,0"), ("011", "-1,0,1"), ("000", "-1,-1,-1"), ("012", "-1,0,0")):
+                    if rm == "start":
+                        c(st, rm, kinds, parents, timeout=2400, loglevel=1)
+                for kinds, parents in (("001", "-1,-1,0"), ("012", "-1,0,0")):
                     for mask in itertools.product("01", repeat=3):
                         if rm == "bounded" and st == 2:
                             continue
